@@ -80,6 +80,7 @@ pub fn corpus() -> i32 {
     crate::util::collect_sy(std::path::Path::new("/repo/tests"), &mut files);
     let mut bad = 0;
     let mut n = 0;
+    let mut combined: u64 = 0;
     for f in files {
         let name = f.file_name().unwrap().to_string_lossy().to_string();
         if name.starts_with('_') {
@@ -93,6 +94,7 @@ pub fn corpus() -> i32 {
         let mut out = Vec::new();
         let res = std::panic::catch_unwind(std::panic::AssertUnwindSafe(|| sylt::compile_with_reader_to_writer(&args, sylt::read_file, &mut out)));
         n += 1;
+        combined = combined.wrapping_mul(31).wrapping_add(crate::harness::fnv(&out));
         let got = match &res {
             Ok(Ok(())) => 0,
             Ok(Err(e)) => e.len(),
@@ -103,6 +105,6 @@ pub fn corpus() -> i32 {
             println!("MISMATCH {}: expected {} compile errors, got {}", f.display(), expected_compile_errors, if got == usize::MAX { "panic".to_string() } else { got.to_string() });
         }
     }
-    println!("corpus: {} programs, {} mismatches", n, bad);
+    println!("corpus: {} programs, {} mismatches, combined output hash {:016x}", n, bad, combined);
     if bad == 0 { 0 } else { 1 }
 }
